@@ -13,6 +13,7 @@ package gnmi
 //@ import errors "github.com/onosproject/onos-lib-go/pkg/errors"
 //@ import codes "google.golang.org/grpc/codes"
 //@ import gnmi "github.com/openconfig/gnmi/proto/gnmi"
+//@ import gnmi_ext "github.com/openconfig/gnmi/proto/gnmi_ext"
 
 // gRPC status code that errors.Status gives the error built for a recorded failure class
 //@ spec codeOfFailure(t int) int = ite(t == configapi.Failure_UNKNOWN, codes.Unknown, ite(t == configapi.Failure_CANCELED, codes.Canceled, ite(t == configapi.Failure_NOT_FOUND, codes.NotFound, ite(t == configapi.Failure_ALREADY_EXISTS, codes.AlreadyExists, ite(t == configapi.Failure_UNAUTHORIZED, codes.Unauthenticated, ite(t == configapi.Failure_FORBIDDEN, codes.PermissionDenied, ite(t == configapi.Failure_CONFLICT, codes.FailedPrecondition, ite(t == configapi.Failure_INVALID, codes.InvalidArgument, ite(t == configapi.Failure_UNAVAILABLE, codes.Unavailable, ite(t == configapi.Failure_NOT_SUPPORTED, codes.Unimplemented, ite(t == configapi.Failure_TIMEOUT, codes.DeadlineExceeded, ite(t == configapi.Failure_INTERNAL, codes.Internal, codes.Unknown))))))))))))
@@ -29,8 +30,9 @@ package gnmi
 //@ spec serverWF(s *Server) bool = s != nil && s.pluginRegistry != nil && s.topo != nil && s.transactions != nil && s.proposals != nil && s.configurations != nil && s.conns != nil
 
 //@ func (*Server).Set
-//@   props C08, C13, C14
-//@   requires serverWF(s) && req != nil
+//@   props C08, C13, C14, C12
+//@   safe
+//@   requires serverWF(s) && wireValidSet(req) && ctx != nil
 //@   probe evState: evState(transactionEvent)
 //@   probe evSync: ite(evSync(transactionEvent), 1, 0)
 //@   probe evAsync: ite(evAsync(transactionEvent), 1, 0)
@@ -56,7 +58,14 @@ package gnmi
 //@ spec resolvedTarget(idPrefix string, id configapi.TargetID) string = ite(len(id) > 0, id, idPrefix)
 
 // every registered target is keyed by its own identifier
-//@ spec targetsWF(targets map[configapi.TargetID]*targetInfo) bool = forall t string :: (t in targets) ==> targets[t] != nil && allocated(targets[t]) && targets[t].targetID == t && targets[t].plugin != nil && targets[t].updates != nil
+// the pending updates of a target never hold a nil value (computeChange dereferences them)
+//@ spec updatesWF(ti *targetInfo) bool = forall k string :: (k in ti.updates) ==> ti.updates[k] != nil
+//@ spec targetsWF(targets map[configapi.TargetID]*targetInfo) bool = forall t string :: (t in targets) ==> targets[t] != nil && allocated(targets[t]) && targets[t].targetID == t && targets[t].plugin != nil && targets[t].updates != nil && updatesWF(targets[t])
+// a Set request as gRPC hands it over: decoded from the wire
+//@ spec wireValidExt(ex *gnmi_ext.Extension) bool = ex != nil && (isType(ex.Ext, "*gnmi_ext.Extension_RegisteredExt") ==> asType(ex.Ext, "*gnmi_ext.Extension_RegisteredExt") != nil && asType(ex.Ext, "*gnmi_ext.Extension_RegisteredExt").RegisteredExt != nil)
+//@ spec wireValidSet(req *gnmi.SetRequest) bool = req != nil && (forall u in req.Update :: u != nil && wireValidTV(u.Val)) && (forall u in req.Replace :: u != nil && wireValidTV(u.Val)) && (forall ex in req.Extension :: wireValidExt(ex))
+// the changes of a transaction under construction: no nil change and no nil value
+//@ spec changesWF(m map[configapi.TargetID]*configapi.PathValues) bool = forall t string :: (t in m) ==> m[t] != nil && allocated(m[t]) && (forall k string :: (k in m[t].Values) ==> m[t].Values[k] != nil)
 
 //@ func (*Server).getTargetInfo(s, ctx, targets, overrides, idPrefix, id) (target, err)
 //@   props C13, C05, C12
@@ -64,6 +73,7 @@ package gnmi
 //@   modifies mapOf(targets), mapOf(overrides.Overrides), lastTopoGetOK, lastGetPluginOK
 //@   requires serverWF(s) && targets != nil && overrides != nil && overrides.Overrides != nil && targetsWF(targets)
 //@   ensures {C13} targets-stay-well-formed: targetsWF(targets)
+//@   ensures {C12} error-is-well-formed: errWF(err)
 //@   ensures {C13} prefix-target-wins: err == nil ==> target != nil && target.targetID == resolvedTarget(idPrefix, id) && (resolvedTarget(idPrefix, id) in targets) && targets[resolvedTarget(idPrefix, id)] == target
 //@   ensures {C13,C05} unknown-target-or-model-refused: err == nil && !old(resolvedTarget(idPrefix, id) in targets) ==> lastTopoGetOK && lastGetPluginOK && target.plugin != nil
 //@   ensures {C13} refusal-registers-nothing: err != nil ==> target == nil && domOf(targets) == old(domOf(targets)) && valsOf(targets) == old(valsOf(targets))
@@ -77,13 +87,17 @@ package gnmi
 //@   ensures {C13} delete-lands-on-effective-path: err == nil ==> len(target.removes) == old(len(target.removes)) + 1 && (target.removes[len(target.removes) - 1] == effPath(prefix, gnmiPath) || (hasPrefix(effPath(prefix, gnmiPath), target.removes[len(target.removes) - 1] + "/") && !contains(substr(effPath(prefix, gnmiPath), len(target.removes[len(target.removes) - 1]) + 1, len(effPath(prefix, gnmiPath))), "/")))
 //@   ensures {C13} refused-delete-records-nothing: err != nil ==> len(target.removes) == old(len(target.removes)) && arrOf(target.removes) == old(arrOf(target.removes)) && checkFailures == old(checkFailures) + 1
 //@   ensures {C13} accepted-delete-passed-checks: err == nil ==> checkFailures == old(checkFailures)
+//@   ensures {C12} error-is-well-formed: errWF(err)
 //@   ensures {C13} delete-touches-no-update: domOf(target.updates) == old(domOf(target.updates)) && valsOf(target.updates) == old(valsOf(target.updates))
 
 //@ func (*Server).doUpdateOrReplace(s, ctx, prefix, u, target) (err)
 //@   props C13, C12
 //@   safe
 //@   modifies mapOf(target.updates), checkFailures, getPathValuesCalls, lastGetPathValuesPrefix
-//@   requires serverWF(s) && target != nil && target.plugin != nil && target.updates != nil && u != nil && wireValidTV(u.Val)
+//@   requires serverWF(s) && target != nil && target.plugin != nil && target.updates != nil && u != nil && wireValidTV(u.Val) && updatesWF(target)
+//@   ensures {C12,C13} update-values-never-nil: updatesWF(target)
+//@   ensures {C12} error-is-well-formed: errWF(err)
+//@   loop 1 invariant updatesWF(target)
 //@   ensures {C13} update-lands-on-effective-path: err == nil && getPathValuesCalls == old(getPathValuesCalls) ==> (effPath(prefix, u.Path) in target.updates) && (forall k string :: k != effPath(prefix, u.Path) ==> (k in target.updates) == old(k in target.updates))
 //@   ensures {C13} json-update-rooted-at-effective-path: getPathValuesCalls > old(getPathValuesCalls) ==> lastGetPathValuesPrefix == effPath(prefix, u.Path)
 //@   ensures {C13} refused-update-records-nothing: err != nil ==> domOf(target.updates) == old(domOf(target.updates)) && checkFailures > old(checkFailures)
@@ -118,10 +132,23 @@ package gnmi
 //@ func computeChange(target) (change, err)
 //@   props C12, C03
 //@   safe
-//@   requires target != nil && (forall k string :: (k in target.updates) ==> target.updates[k] != nil)
+//@   requires target != nil && updatesWF(target)
+//@   modifies nothing
 //@   ensures {C12,C03} change-values-are-never-nil: err == nil ==> change != nil && (forall k string :: (k in change.Values) ==> change.Values[k] != nil)
+//@   ensures errWF(err)
+//@   fresh change
 //@   loop 1 invariant newChanges != nil && (forall k string :: (k in newChanges) ==> newChanges[k] != nil)
 //@   loop 2 invariant newChanges != nil && (forall k string :: (k in newChanges) ==> newChanges[k] != nil)
+//@ func computeChanges(targets) (r, err)
+//@   props C12
+//@   safe
+//@   requires targetsWF(targets)
+//@   modifies nothing
+//@   ensures err == nil ==> r != nil && changesWF(r)
+//@   ensures err != nil ==> r == nil
+//@   ensures errWF(err)
+//@   loop 1 invariant allChanges != nil && changesWF(allChanges)
+//@   fresh r
 //@ func copyPrefix(prefix, target) (r)
 //@   props C12, C19
 //@   safe
@@ -130,3 +157,16 @@ package gnmi
 //@ func newUpdateResult(pathStr, target, op) (r, err)
 //@   props C12
 //@   safe
+//@   modifies nothing
+
+// no-panic sweep (C12) of the parts of the Get path that are within reach; Get, processRequest,
+// getUpdate, checkOpaAllowed and processStateOrOperationalRequest are NOT swept (they need
+// contracts on the configuration store contents, the OPA client and the southbound Get)
+//@ func (*Server).addTarget(s, ctx, targetID, targets, overrides) (err)
+//@   props C12
+//@   safe
+//@   requires serverWF(s) && targets != nil && ctx != nil
+//@ func (*Server).reportAllTargets(s, ctx, encoding, groups) (resp, err)
+//@   props C12
+//@   safe
+//@   requires serverWF(s) && ctx != nil
